@@ -421,19 +421,27 @@ def run_history(ctx, rng, hid, length):
                     raw = b"BEGIN:VCALENDAR\r\nthis is not an item\r\n"
                 else:
                     raw = None
+                keep_time = rng.random() < 0.3       # a tool that keeps time stamps (cp -p, rsync -t): then the size has to give it away
+                fp_sut = os.path.join(p.sut.coll_dir(cname), href)
+                if keep_time and raw is not None and q < 0.6 and os.path.exists(fp_sut) and os.stat(fp_sut).st_size == len(raw):
+                    raw = ev(rng.choice(UIDS), rng.randint(1, 3), pad=" kept-time-other-size").encode(STOCK[0])
                 for side in (p.ref, p.sut):
                     fp = os.path.join(side.coll_dir(cname), href)
                     if raw is None:
                         if os.path.exists(fp):
                             os.unlink(fp)
                     else:
-                        old = os.stat(fp).st_mtime_ns if os.path.exists(fp) else 0
+                        old_st = os.stat(fp) if os.path.exists(fp) else None
+                        old = old_st.st_mtime_ns if old_st else 0
                         with open(fp, "wb") as f:
                             f.write(raw)
                         new = os.stat(fp).st_mtime_ns
-                        if new <= old:
+                        if keep_time and old_st is not None and old_st.st_size != len(raw):
+                            os.utime(fp, ns=(old, old))
+                        elif new <= old:
                             os.utime(fp, ns=(old + 1000, old + 1000))      # an edit changes the mtime
-                p.log.append(["EDIT", cname, href, "removed" if raw is None else ("broken" if b"not an item" in raw else "item")])
+                p.log.append(["EDIT", cname, href, "removed" if raw is None else ("broken" if b"not an item" in raw else "item"),
+                              "mtime kept" if keep_time and raw is not None else ""])
                 if raw is None:
                     p.ops.append({"op": "edit", "coll": ci, "h": p.hid(href), "f": None})
                 else:
@@ -519,6 +527,63 @@ def witness_f5(ctx):
                       "removed (GET %d)" % (st, st1, st2), case, finding="F5")
 
 
+def external_replacement_level(ctx):
+    """the second sentence of the property on its own, for both keying modes and cache locations: an item is stored and read (its cache
+    entry exists), its file is replaced by other means while no request runs - with a new or the *same* modification time, the same or
+    another size - and the next read (GET, multiget REPORT, PROPFIND getetag) shows the new content and a new ETag"""
+    import itertools
+    from common import parse_multistatus
+    rng = ctx.rng("external")
+    kinds = ["new-mtime-same-size", "new-mtime-other-size", "kept-mtime-other-size", "older-mtime-other-size", "one-ns-later-same-size"]
+    for mode_stat, item_sub, kind in itertools.product([False, True], [False, True], kinds):
+        with App({"storage": {"use_mtime_and_size_for_item_cache": str(mode_stat), "use_cache_subfolder_for_item": str(item_sub)},
+                  "auth": {"type": "none"}}) as app:
+            login = "u:pw"
+            app.request("MKCALENDAR", "/u/c/", login=login)
+            v = rng.randint(1, 3)
+            st, hd, _ = app.request("PUT", "/u/c/a.ics", ev("a", v), login=login)
+            st1, hd1, body1 = app.request("GET", "/u/c/a.ics", login=login)
+            etag1 = hd1.get("ETag")
+            fp = os.path.join(app.folder, "collection-root", "u", "c", "a.ics")
+            s0 = os.stat(fp)
+            new_v = v % 3 + 1                                             # same length, other digit
+            text = ev("a", new_v, pad="" if kind.endswith("same-size") else " longer")
+            with open(fp, "wb") as f:
+                f.write(text.encode("utf-8"))
+            t = {"new-mtime-same-size": s0.st_mtime_ns + 2_000_000_000, "new-mtime-other-size": s0.st_mtime_ns + 2_000_000_000,
+                 "kept-mtime-other-size": s0.st_mtime_ns, "older-mtime-other-size": s0.st_mtime_ns - 5_000_000_000,
+                 "one-ns-later-same-size": s0.st_mtime_ns + 1}[kind]
+            os.utime(fp, ns=(t, t))
+            case = {"keying": "mtime+size" if mode_stat else "hash", "item_cache_subfolder": item_sub, "replacement": kind,
+                    "size_before": s0.st_size, "size_after": os.stat(fp).st_size}
+            want = "SUMMARY:v%d" % new_v
+            how = rng.choice(["GET", "REPORT", "PROPFIND"])
+            if how == "GET":
+                st2, hd2, body2 = app.request("GET", "/u/c/a.ics", login=login)
+                etag2, shown = hd2.get("ETag"), body2
+            elif how == "REPORT":
+                st2, _, t2 = app.request("REPORT", "/u/c/", '<?xml version="1.0"?><C:calendar-multiget xmlns:D="DAV:" xmlns:C="urn:ietf:params:xml:ns:caldav">'
+                                         '<D:prop><D:getetag/><C:calendar-data/></D:prop><D:href>/u/c/a.ics</D:href></C:calendar-multiget>', login=login)
+                ms = parse_multistatus(t2)[0].get("/u/c/a.ics", {}) if st2 == 207 else {}
+                etag2 = ms.get("D:getetag", (0, None))[1].text if isinstance(ms, dict) and "D:getetag" in ms else None
+                shown = ms.get("C:calendar-data", (0, None))[1].text if isinstance(ms, dict) and "C:calendar-data" in ms else ""
+            else:
+                st2, _, t2 = app.request("PROPFIND", "/u/c/a.ics", '<?xml version="1.0"?><D:propfind xmlns:D="DAV:"><D:prop><D:getetag/></D:prop></D:propfind>',
+                                         login=login, HTTP_DEPTH="0")
+                ms = parse_multistatus(t2)[0].get("/u/c/a.ics", {}) if st2 == 207 else {}
+                etag2 = ms.get("D:getetag", (0, None))[1].text if isinstance(ms, dict) and "D:getetag" in ms else None
+                shown = None
+            case.update(read=how, status=st2)
+            ctx.case("external:%s:%s:%s" % (case["keying"], kind, how), sample=case, key=["external", mode_stat, item_sub, kind], nontrivial=True)
+            if st1 != 200 or st2 not in (200, 207):
+                ctx.violation("reading the replaced item answered %s" % st2, case)
+                continue
+            if shown is not None and want not in (shown or ""):
+                ctx.violation("an item file replaced by other means (%s) is served with its old content" % kind, case)
+            if etag2 is None or etag2 == etag1:
+                ctx.violation("an item file replaced by other means (%s) keeps its old ETag" % kind, case)
+
+
 def run(ctx):
     ctx.extra["rule"] = ("paired histories of 15-60 steps on two calendars: PUT / GET / DELETE / MOVE (inside, across, over existing names) / whole "
                          "PUT / calendar-query with data / PROPFIND / external edits (valid, broken, removed) on both sides; on the side under test "
@@ -526,7 +591,7 @@ def run(ctx):
                          "under the other keying mode, item cache in collection or sub-folder; non-trivial = a read after the cache was tampered with")
     ctx.trusted += ["harness/props/c13.py (paired driver, decoding of cache entries, scratch application as the cache-free parser)",
                     "Radicale's own cache debug log as the hit/miss observation", "SHA-256 injective"]
-    ctx.assumptions += ["an external edit changes the file's mtime (mtime+size keying)",
+    ctx.assumptions += ["an external edit changes the file's mtime or its size (mtime+size keying)",
                         "uploaded items can be re-read from what was written (fails for finding F5's content)",
                         "sequential requests"]
     rng = ctx.rng("hist")
@@ -534,3 +599,4 @@ def run(ctx):
     for h in range(n):
         run_history(ctx, rng, h, rng.randint(15, 60))
     witness_f5(ctx)
+    external_replacement_level(ctx)
